@@ -59,10 +59,16 @@ def gen_shutdown(rng):
     h = histgen.Hist(rng, nauthors=2)
     for _ in range(rng.randint(1, 6)):
         c = rng.random()
-        h.add(h.regular() if c < 0.7 else (h.replaceable() if c < 0.85 else h.ephemeral()))
+        h.add(h.regular() if c < 0.6 else (h.replaceable() if c < 0.85 else h.ephemeral()))
         if rng.random() < 0.2:
             h.ops.append(["settle"])
-    h.ops.append(["restart_now"])
+    if rng.random() < 0.5:
+        # several addresses of one author and kind (different d values), versions arriving out of order: all of
+        # them were acknowledged and none supersedes another address
+        a, k = rng.choice([0, 1]), rng.choice([30000, 30023, 39999])
+        for dv, t in rng.sample([("a", 10), ("b", 20), ("a", 5), ("", 15), ("ab", 30)], rng.randint(2, 4)):
+            h.add(h.replaceable(author=a, kind=k, d=dv, created_at=histgen.T0 - 100 + t))
+    h.ops.append(rng.choice([["restart_now"], ["restart_now"], ["restart"]]))
     for _ in range(rng.randint(0, 2)):
         h.add(h.regular())
     h.ops.append(["settle"])
@@ -78,7 +84,7 @@ def run_shutdown(case, sim):
     for o in obs:
         if o["op"][0] == "add" and o.get("res", [None])[0] == "ok" and o["res"][1]:
             acked.append(o["op"][1])
-        if o["op"][0] == "restart_now":
+        if o["op"][0] in ("restart_now", "restart"):
             final = o.get("post")
             must = list(acked)
             for e in must:
